@@ -154,8 +154,8 @@ theorem jsr_select_routes (E : ReEnv) (X : ImpGen.Ext)
     (mk : Route → Option ImpGen.GoPathExpression → ImpGen.GoRoute)
     (hmk : ∀ r pe, (mk r pe).pathExpr = pe)
     (hsrt : ∀ x, (X.sort_SortReverse_sortableRouteCandidates x).candidates.Perm x.candidates)
-    (pe : Option ImpGen.GoPathExpression) (routes : List Route) (remainder : Str) :
-    ImpGen.RouterJSR311_selectRoutes X (some { pathExpr := pe, routes := routes.map (genRouteJ E mk) }) remainder
+    (ws0 : ImpGen.GoWebService) (pe : Option ImpGen.GoPathExpression) (routes : List Route) (remainder : Str) :
+    ImpGen.RouterJSR311_selectRoutes X (some { ws0 with pathExpr := pe, routes := routes.map (genRouteJ E mk) }) remainder
       = (Jsr.routeCandidates E routes remainder).map (fun cs =>
           ((X.sort_SortReverse_sortableRouteCandidates { candidates := cs.map (genRouteCand E mk) }).candidates.map (·.route))) := by
   unfold ImpGen.RouterJSR311_selectRoutes
@@ -229,7 +229,7 @@ theorem jsr_select_routes (E : ReEnv) (X : ImpGen.Ext)
              simp [push])
 
 def genSvcJ (E : ReEnv) (routesOf : Service → List ImpGen.GoRoute) (s : Service) : ImpGen.GoWebService :=
-  { pathExpr := genPE E s.rootPath, routes := routesOf s }
+  { rootPath := s.rootPath, pathExpr := genPE E s.rootPath, routes := routesOf s }
 
 def genDispCand (E : ReEnv) (routesOf : Service → List ImpGen.GoRoute) (c : Jsr.DispCand) : ImpGen.GoDispatcherCandidate :=
   { dispatcher := some (genSvcJ E routesOf c.svc), finalMatch := c.finalMatch, matchesCount := ((c.matchesCount : Nat) : Int),
